@@ -5,6 +5,8 @@
 package rruntime
 
 import (
+	"github.com/siderolabs/gen/optional"
+
 	"github.com/cosi-project/runtime/pkg/controller"
 	"github.com/cosi-project/runtime/pkg/controller/runtime/internal/reduced"
 	"github.com/cosi-project/runtime/pkg/controller/runtime/metrics"
@@ -14,9 +16,11 @@ import (
 type watchKey struct {
 	Namespace resource.Namespace
 	Type      resource.Type
+	ID        optional.Optional[resource.ID]
 }
 
-func (adapter *Adapter) addWatchFilter(resourceNamespace resource.Namespace, resourceType resource.Type, filter reduced.WatchFilter) {
+// addWatchFilter registers the filter (which might be nil) for the input.
+func (adapter *Adapter) addWatchFilter(input controller.Input, filter reduced.WatchFilter) {
 	adapter.watchFilterMu.Lock()
 	defer adapter.watchFilterMu.Unlock()
 
@@ -24,14 +28,14 @@ func (adapter *Adapter) addWatchFilter(resourceNamespace resource.Namespace, res
 		adapter.watchFilters = make(map[watchKey]reduced.WatchFilter)
 	}
 
-	adapter.watchFilters[watchKey{resourceNamespace, resourceType}] = filter
+	adapter.watchFilters[watchKey{input.Namespace, input.Type, input.ID}] = filter
 }
 
-func (adapter *Adapter) deleteWatchFilter(resourceNamespace resource.Namespace, resourceType resource.Type) {
+func (adapter *Adapter) deleteWatchFilter(input controller.Input) {
 	adapter.watchFilterMu.Lock()
 	defer adapter.watchFilterMu.Unlock()
 
-	delete(adapter.watchFilters, watchKey{resourceNamespace, resourceType})
+	delete(adapter.watchFilters, watchKey{input.Namespace, input.Type, input.ID})
 }
 
 // WatchTrigger is called by common controller runtime when there is a change in the watched resources.
@@ -39,11 +43,29 @@ func (adapter *Adapter) WatchTrigger(md *reduced.Metadata) {
 	adapter.watchFilterMu.Lock()
 	defer adapter.watchFilterMu.Unlock()
 
-	if adapter.watchFilters != nil {
-		if filter := adapter.watchFilters[watchKey{md.Namespace, md.Typ}]; filter != nil && !filter(md) {
-			// skip reconcile if the event doesn't match the filter
-			return
+	// the event might match an input by kind and an input by ID: it is skipped only
+	// if every matching input has a filter which rejects it
+	matched, pass := false, false
+
+	for _, key := range []watchKey{
+		{md.Namespace, md.Typ, optional.None[resource.ID]()},
+		{md.Namespace, md.Typ, optional.Some(md.ID)},
+	} {
+		filter, ok := adapter.watchFilters[key]
+		if !ok {
+			continue
 		}
+
+		matched = true
+
+		if filter == nil || filter(md) {
+			pass = true
+		}
+	}
+
+	if matched && !pass {
+		// skip reconcile if the event doesn't match the filter
+		return
 	}
 
 	adapter.triggerReconcile()
